@@ -6,10 +6,20 @@ package trzsz
 // before / after every protocol message of real end-to-end transfers.
 
 import (
+	"io"
 	"os"
+	"os/exec"
+	"path/filepath"
+	"strings"
+	"sync/atomic"
+	"syscall"
+	"time"
 )
 
-func init() { vRegister("c10_stop", c10Stop) }
+func init() {
+	vRegister("c10_stop", c10Stop)
+	vRegister("c10_signal", c10Signal)
+}
 
 func c10Bases(seed int64, thorough bool) []*e2eCase {
 	var res []*e2eCase
@@ -100,3 +110,178 @@ func c10Stop(d *vCtx) error {
 		return vWriteJSON(d.path("details.json"), details)
 	})
 }
+
+// c10Signal: SIGINT / SIGTERM delivered to the real trz / tsz processes (built from the working
+// tree) in the middle of a transfer under a real NewTrzszFilter with its pumps.
+func c10Signal(d *vCtx) error {
+	bin := d.pStr("bindir", "")
+	runs := d.pInt("runs", 8)
+	shards := d.pInt("shards", 8)
+	return vShards(d, shards, func(si, n int) error {
+		base := e2eShmBase()
+		defer os.RemoveAll(base)
+		tr, err := vNewTrace(d.path("obs.ndjson"))
+		if err != nil {
+			return err
+		}
+		var details []map[string]any
+		for id := si; id < runs; id += n {
+			rid := 930000 + id
+			r := d.rng(int64(rid))
+			upload := id%2 == 0
+			sig := []syscall.Signal{syscall.SIGINT, syscall.SIGTERM}[(id/2)%2]
+			work := e2eWorkDir(base, rid)
+			srcRoot, dst := filepath.Join(work, "src"), filepath.Join(work, "dst")
+			_ = os.MkdirAll(dst, 0755)
+			// a first small file that completes, then a big one during which the signal arrives
+			nodes := []e2eNode{{Rel: "a_small.bin", Size: 3000, Kind: 1}, {Rel: "b_big.bin", Size: 6 << 20, Kind: 1}}
+			tops, err := e2eMakeTree(srcRoot, nodes, d.seed+int64(rid))
+			if err != nil {
+				return err
+			}
+			e2eSrcCache = map[string]map[string]e2eEntry{}
+			for _, t := range tops {
+				if s := e2eSourceSnapshot(t); s != nil {
+					e2eSrcCache[t] = s
+				}
+			}
+			args := []string{"-t", "3", "-B", "4K", "-c", "no"}
+			var cmd *exec.Cmd
+			if upload {
+				cmd = exec.Command(filepath.Join(bin, "trz"), append(args, dst)...)
+			} else {
+				cmd = exec.Command(filepath.Join(bin, "tsz"), append(args, tops...)...)
+			}
+			cmd.Env = e2eDropEnv(os.Environ(), "TMUX")
+			stdin, _ := cmd.StdinPipe()
+			stdoutR, _ := cmd.StdoutPipe()
+			if err := cmd.Start(); err != nil {
+				return err
+			}
+			// count the bytes the server process writes; the signal is sent once enough data has flowed
+			counted := &c10CountReader{r: stdoutR}
+			clientIn := &e2eChanReader{ch: make(chan []byte)}
+			sink := &e2eSink{}
+			cw := &c10CountWriter{w: stdin}
+			f := NewTrzszFilter(clientIn, sink, cw, counted, TrzszOptions{TerminalColumns: 100})
+			var upRes <-chan error
+			if upload {
+				upRes, _ = f.OneTimeUpload(tops)
+			} else {
+				f.SetDefaultDownloadPath(dst)
+			}
+			tr.Emit(map[string]any{"e": "reset", "run": rid, "upload": upload, "proto": 4, "binary": false, "overwrite": false,
+				"directory": false, "windows": false, "nfaults": 0, "stop": "V", "stopdel": false, "pause": false, "silence": false,
+				"timeout": 3, "fkind": "stop", "prehs": false, "files": []any{}}, nil)
+			threshold := int64(300000 + r.Intn(2000000))
+			done := make(chan error, 1)
+			go func() { done <- cmd.Wait() }()
+			var sigAt time.Time
+			deadline := time.After(60 * time.Second)
+			hung := false
+		wait:
+			for {
+				select {
+				case <-done:
+					break wait
+				case <-deadline:
+					hung = true
+					_ = cmd.Process.Kill()
+					break wait
+				case <-time.After(2 * time.Millisecond):
+					if sigAt.IsZero() && counted.n.Load()+cw.n.Load() > threshold {
+						sigAt = time.Now()
+						tr.Emit(map[string]any{"e": "stop", "run": rid, "g": -1, "phase": "signal", "role": "V", "del": false}, func() {
+							_ = cmd.Process.Signal(sig)
+						})
+					}
+				}
+			}
+			vend := time.Now()
+			// the client side must leave the transfer too
+			cend := time.Time{}
+			for dl := time.Now().Add(30 * time.Second); time.Now().Before(dl); time.Sleep(5 * time.Millisecond) {
+				if !f.IsTransferringFiles() {
+					cend = time.Now()
+					break
+				}
+			}
+			cok := false
+			if upload {
+				select {
+				case e := <-upRes:
+					cok = e == nil
+				case <-time.After(time.Second):
+				}
+			} else {
+				cok = strings.Contains(sink.String(), "Saved")
+			}
+			since := func(t time.Time) int64 {
+				if sigAt.IsZero() || t.IsZero() {
+					return -1
+				}
+				if t.Before(sigAt) {
+					return 0
+				}
+				return t.Sub(sigAt).Milliseconds()
+			}
+			names := []string{"a_small.bin", "b_big.bin"}
+			entries, allSame, _ := e2eCompare(tops, names, dst, map[string]e2eEntry{})
+			keptok := len(entries) > 0 && entries[0]["got"] == "same" // the completed first file is intact
+			nsame := 0
+			for _, e := range entries {
+				if e["got"] == "same" {
+					nsame++
+				}
+			}
+			res := func(b bool) string {
+				if b {
+					return "ok"
+				}
+				return "fail"
+			}
+			tr.Emit(map[string]any{"e": "ret", "run": rid, "role": "C", "res": res(cok), "hung": cend.IsZero(), "ms": 0,
+				"since": since(cend), "told": false, "msg": ""}, nil)
+			tr.Emit(map[string]any{"e": "ret", "run": rid, "role": "V", "res": res(cmd.ProcessState != nil && cmd.ProcessState.ExitCode() == 0 && allSame), "hung": hung,
+				"ms": 0, "since": since(vend), "told": false, "msg": ""}, nil)
+			tr.Emit(map[string]any{"e": "fs", "run": rid, "n": len(entries), "nsame": nsame, "allsame": allSame && len(entries) > 0,
+				"extra": 0, "touched": 0, "shown": true, "nshown": 2, "ntops": 2, "npresent": 0, "keptok": keptok || sigAt.IsZero(),
+				"verified": 1, "mutapplied": false, "vmgrow": 0, "pdata": 0, "pkeep": 0, "dataafter": 0, "pausems": 0}, nil)
+			details = append(details, map[string]any{"case": map[string]any{"id": rid, "opts": map[string]any{"upload": upload},
+				"plan": map[string]any{"stop": map[string]any{"role": "V", "delete": false, "signal": sig.String(), "after_bytes": threshold}}, "process": true},
+				"entries": entries, "server_exit": cmd.ProcessState.String(), "terminal": e2eFirstLine(sink.String())})
+			close(clientIn.ch)
+			os.RemoveAll(work)
+			d.add("runs", 1)
+			if !sigAt.IsZero() {
+				d.add("signalled", 1)
+			}
+		}
+		if err := tr.Close(); err != nil {
+			return err
+		}
+		return vWriteJSON(d.path("details.json"), details)
+	})
+}
+
+type c10CountReader struct {
+	r io.Reader
+	n atomic.Int64
+}
+
+func (c *c10CountReader) Read(p []byte) (int, error) {
+	n, err := c.r.Read(p)
+	c.n.Add(int64(n))
+	return n, err
+}
+
+type c10CountWriter struct {
+	w io.WriteCloser
+	n atomic.Int64
+}
+
+func (c *c10CountWriter) Write(p []byte) (int, error) {
+	c.n.Add(int64(len(p)))
+	return c.w.Write(p)
+}
+func (c *c10CountWriter) Close() error { return c.w.Close() }
